@@ -18,13 +18,13 @@ TECHNIQUE = "runtime metamorphic monitor: match_template(T, reordered T(**v)) fe
 RULE = ("templates of 1-15 operations on 1-5 modes whose positional arguments are affine in at most one parameter ({p}, -{p}, a*{p}+b, {p}/c), "
         "parameters repeated across operations and positions, constants elsewhere; generic real values; the instance itself and 2 (quick) / 6 "
         "(thorough) random linear extensions of its per-mode order, then a second instantiation of the same template object with other values; values of "
-        "magnitude 1e-10..1e7; one structural edit per negative case; non-trivial = >=3 operations, a "
+        "magnitude 1e-10..1e7; every fourth case also a tdm template with bare parameters matched against the tdm program that passes p-arrays by name (the returned values must be the declared arrays); one structural edit per negative case; non-trivial = >=3 operations, a "
         "repeated parameter and (a reordering that differs from the identity or a negative case); distinct by SHA-1 of template+values+order")
 BUDGET = {"quick": 400, "thorough": 4000}
 MIN_NONTRIVIAL = {"quick": 200, "thorough": 1500}
 REQUIRED_FUNCTIONS = ["utils.py:match_template", "utils.py:to_DiGraph", "program.py:BlackbirdProgram.__call__"]
 FUNCTIONS = REQUIRED_FUNCTIONS + ["utils.py:match_template.<locals>.node_match"]
-REQUIRED_TAGS = ["reordered", "repeated-parameter", "form:bare", "form:negated", "form:affine", "form:divided", "neg:gate", "neg:modes", "neg:modes-permuted", "neg:modes-same-digits", "neg:order", "neg:version", "neg:version-same-value", "neg:target", "edit-in-place-after-match", "second-instantiation-after-match", "value:small-or-large"]
+REQUIRED_TAGS = ["reordered", "repeated-parameter", "form:bare", "form:negated", "form:affine", "form:divided", "neg:gate", "neg:modes", "neg:modes-permuted", "neg:modes-same-digits", "neg:order", "neg:version", "neg:version-same-value", "neg:target", "edit-in-place-after-match", "second-instantiation-after-match", "value:small-or-large", "tdm", "tdm:repeated-parameter"]
 ASSUMPTIONS = ["per-mode order = order of operations sharing a mode (register arguments are not generated here)", "returned values are compared through the arguments they reproduce; allowed difference per argument a*p+b: 1e-9*|a|*max over the occurrences a_j*p+b_j of p of (|a_j p|+|b_j|)/|a_j|"]
 
 
@@ -325,6 +325,91 @@ def check_case(ctx, text, vals, tags, witness=None):
     return ctx.violation("edit-accepted:" + edit, "a program with a different %s was matched: %s" % (edit, res), w)
 
 
+def build_tdm(rng):
+    """A tdm template with bare parameters and the tdm program that passes one
+    p-array per parameter by name (how such templates are used: the arrays are
+    the values).  Returns template text, program text, {parameter: (p-name, rows)}."""
+    nparams = rng.randint(1, 4)
+    params = []
+    while len(params) < nparams:
+        p = rng.choice(["s", "r", "bs", "offset", "phi", "alpha", "t1", "x_"]) + rng.choice(["", "", "1", "2"])
+        if p not in params:
+            params.append(p)
+    length = rng.choice([1, 2, 3, 5, 8])
+    pnums = rng.sample(range(0, 40), nparams)
+    assign = {}
+    decl = []
+    for p, k in zip(params, pnums):
+        vt = rng.choice(["float", "float", "int"])
+        row = [rng.randint(-9, 9) if vt == "int" else round(rng.uniform(-3, 3), rng.choice([1, 3, 6])) for _ in range(length)]
+        assign[p] = ("p%d" % k, vt, row)
+        decl.append("%s array p%d =\n    %s" % (vt, k, ", ".join(repr(x) for x in row)))
+    head = ["version 1.0", "target TD_dev (shots=%d)" % rng.randint(1, 9), "type tdm (temporal_modes=%d, copies=1)" % length, ""]
+    ops = []
+    used = []
+    nops = rng.randint(max(1, nparams), 8)
+    for i in range(nops):
+        args = []
+        for _ in range(rng.choice([1, 1, 2])):
+            if rng.random() < 0.7:
+                p = params[i] if i < nparams and not args else rng.choice(params)
+                used.append(p)
+                args.append("{%s}" % p)
+            else:
+                args.append(rng.choice(["0.0", "1.5707963267948966", "0.5", "2"]))
+        ms = rng.sample([0, 1, 2, 42, 43], rng.choice([1, 1, 2]))
+        ops.append((rng.choice(["Sgate", "Rgate", "BSgate", "Dgate", "Zgate"]), args, ms))
+    for p in params:
+        if p not in used:
+            ops.append(("Rgate", ["{%s}" % p], [rng.choice([0, 1, 43])]))
+            used.append(p)
+    ops.append(("MeasureFock", None, [0]))
+
+    def render(sub):
+        out = []
+        for name, args, ms in ops:
+            al = "()" if args is None else "(" + ", ".join(sub(a) for a in args) + ")"
+            out.append("%s%s | %s" % (name, al, ms[0] if len(ms) == 1 else "[%s]" % ", ".join(str(m) for m in ms)))
+        return out
+
+    template = "\n".join(["name tdm_template"] + head + render(lambda a: a)) + "\n"
+    program = "\n".join(["name tdm_prog"] + head + decl + [""] + render(lambda a: assign[a[1:-1]][0] if a.startswith("{") else a)) + "\n"
+    repeated = len(used) > len(set(used))
+    return template, program, assign, repeated
+
+
+def check_tdm(ctx, template, program, assign, repeated):
+    import numpy as np
+    from blackbird.utils import match_template
+
+    witness = {"tdm_template": template, "tdm_program": program}
+    for t in (template, program):
+        k = common.classify(t)
+        if k[0] != "ok":
+            return ctx.out_of_domain("tdm pair not valid/in domain (%s)" % k[0])
+    T, e1 = common.real_loads(template)
+    P, e2 = common.real_loads(program)
+    if e1 is not None or e2 is not None:
+        return ctx.out_of_domain("tdm pair does not load (C15's business)")
+    ctx.case(template + program, True, tags=["tdm", "tdm:repeated-parameter" if repeated else "tdm:single-use"])
+    ctx.sample({"tdm_template": template, "tdm_program": program}, limit=1)
+    try:
+        with common.time_limit(20):
+            res = match_template(T, P)
+    except common.Timeout:
+        return ctx.observe("match_template stopped after 20 s (not a verdict)")
+    except Exception as e:
+        return ctx.violation("tdm-match-raises:" + common.exc_key(e), "match_template raised %s for a tdm program passing p-arrays by name" % common.exc_text(e), witness)
+    for p, (pname, vt, row) in assign.items():
+        if p not in res:
+            return ctx.violation("tdm-parameter-not-returned", "no value returned for %s (passed as %s)" % (p, pname), witness)
+        got = np.asarray(res[p])
+        want = np.array([row], dtype=int if vt == "int" else float)
+        if got.shape != want.shape or got.dtype.kind != want.dtype.kind or not np.array_equal(got, want):
+            return ctx.violation("tdm-returned-array-wrong", "parameter %s was passed the p-array %s = %s, match_template returned %r" % (p, pname, row, res[p]), witness)
+    ctx.hook("tdm match returned the declared p-arrays")
+
+
 def run(ctx):
     g = common.grammar()
     if ctx.worker == 0:
@@ -339,6 +424,8 @@ def run(ctx):
             ctx.out_of_domain("generator gave up")
             continue
         check_case(ctx, text, vals, tags)
+        if i % 4 == 0:
+            check_tdm(ctx, *build_tdm(ctx.rng("tdm", i)))
 
 
 def replay(w):
@@ -363,10 +450,29 @@ def replay(w):
         def observe(self, *a, **k):
             pass
 
+        def hook(self, *a, **k):
+            pass
+
         def violation(self, key, summary, witness):
             self.res = "%s: %s" % (key, summary)
 
     c = C()
+    if "tdm_template" in w:
+        import re
+
+        assign = {}
+        for m in re.finditer(r"(int|float) array (p\d+) =\n    ([^\n]*)", w["tdm_program"]):
+            assign[m.group(2)] = (m.group(1), [float(x) if m.group(1) == "float" else int(x) for x in m.group(3).split(",")])
+        # map parameters to p-names by position in the two texts
+        tl = [ln for ln in w["tdm_template"].split("\n") if "|" in ln]
+        pl = [ln for ln in w["tdm_program"].split("\n") if "|" in ln]
+        amap = {}
+        for a, b in zip(tl, pl):
+            for x, y in zip(re.findall(r"\{(\w+)\}|[-\w.]+", a), re.findall(r"(p\d+)|[-\w.]+", b)):
+                if x and y and y in assign:
+                    amap[x] = (y,) + assign[y]
+        check_tdm(c, w["tdm_template"], w["tdm_program"], amap, False)
+        return c.res
     for rep in range(5):
         check_case(c, w["text"], w["vals"], set())
         if c.res:
